@@ -93,9 +93,17 @@ def energy_table(rng, n1, n2, kind, scale):
     return t * scale
 
 
-def gen_surface(rng, i):
-    shift, (n1, n2), layout, with_delta, kind, order = surface_classes(i)
-    cellkind, boxvects, a1v, a2v = shift_vectors(rng, shift)
+def gen_surface(rng, i, override=None, vectors=None):
+    """Data set of surface case i.  ``override`` replaces class fields (keys shift, grid,
+    layout, with_delta, kind, order); ``vectors`` = (shift, cellkind, boxvects, a1vect, a2vect)
+    re-uses the geometry of another data set."""
+    c = dict(zip(('shift', 'grid', 'layout', 'with_delta', 'kind', 'order'), surface_classes(i)))
+    c.update(override or {})
+    shift, (n1, n2), layout, with_delta, kind, order = (c[k] for k in ('shift', 'grid', 'layout', 'with_delta', 'kind', 'order'))
+    if vectors is None:
+        cellkind, boxvects, a1v, a2v = shift_vectors(rng, shift)
+    else:
+        shift, cellkind, boxvects, a1v, a2v = vectors
     scale = 10 ** rng.uniform(-3, 0)
     E = energy_table(rng, n1, n2, kind, scale)
     D = energy_table(rng, n1, n2, 'smooth' if kind == 'rough' else 'rough', rng.uniform(0.05, 0.5)) - 0.1 if with_delta else None
@@ -324,3 +332,78 @@ def gen_profile(rng, kind, x, n1, n2):
         l = np.cumsum(rng.integers(-1, 2, N))
         return k, l
     raise ValueError(kind)
+
+
+# ----------------------------------------------------------------------------
+# alternative shift vectors handed to the conversion / query methods
+# ----------------------------------------------------------------------------
+ALT_KINDS = ['sum', 'diff', 'swap', 'a1only', 'a2only', 'general', 'fractional']
+XMODES = ['derived', 'explicit-saved', 'explicit-other']
+
+
+def alt_kind(i):
+    """Alternative-vector class of surface case i: cycles inside every shift class
+    (the shift class is i % 11)."""
+    return ALT_KINDS[(i // 11) % len(ALT_KINDS)]
+
+
+def alt_vectors(rng, kind, u1, u2):
+    """(a1vect or None, a2vect or None) as crystal vectors, built from the saved
+    three-index shift vectors u1, u2.  None = keyword not given (saved vector used)."""
+    u1 = np.asarray(u1, float)
+    u2 = np.asarray(u2, float)
+    if kind == 'sum':
+        return u1 + u2, u2.copy()
+    if kind == 'diff':
+        return u1.copy(), u2 - u1
+    if kind == 'swap':
+        return u2.copy(), u1.copy()
+    if kind == 'a1only':
+        return (u1 + u2 if rng.random() < 0.5 else u1 - u2), None
+    if kind == 'a2only':
+        return None, (u2 - u1 if rng.random() < 0.5 else u2 + 2 * u1)
+    if kind == 'general':
+        while True:
+            p, q, r, s = (int(t) for t in rng.integers(-2, 3, 4))
+            if p * s - q * r != 0 and q != 0:        # q != 0: the new a1 is not along the saved a1
+                return p * u1 + q * u2, r * u1 + s * u2
+    if kind == 'fractional':
+        return 0.5 * u1 + 0.5 * u2, u2 - 0.5 * u1
+    raise ValueError(kind)
+
+
+# ----------------------------------------------------------------------------
+# call histories on one object
+# ----------------------------------------------------------------------------
+HIST_STEPS = ['x-respaced', 'x-relength', 'x-shifted', 'disregistry', 'tau', 'alpha', 'beta', 'cutoff', 'flags',
+              'K-load', 'gamma-set', 'solve-kwargs']
+HIST_STRIDES = [1, 5, 7, 11]
+HIST_N = [7, 9, 12, 16, 21, 30]
+HIST_LEN = 5
+
+
+def history_plan(i):
+    """Five (step kind, how) pairs for Peierls-Nabarro history case i.  The first step is
+    HIST_STEPS[i % 12], the following ones advance by a stride coprime to 12 that
+    changes every 12 cases, so that in 48 consecutive cases every kind is met 20
+    times, every kind comes first 4 times and every ordered pair of different kinds
+    with one of four index differences follows each other.  how = 'args' (x and
+    disregistry passed to every energy method) or 'stored' (assigned to pn.x /
+    pn.disregistry, methods called without arguments)."""
+    stride = HIST_STRIDES[(i // 12) % 4]
+    steps = [HIST_STEPS[(i + j * stride) % 12] for j in range(HIST_LEN)]
+    hows = ['args' if (i + j + i // 12) % 2 else 'stored' for j in range(HIST_LEN)]
+    return list(zip(steps, hows))
+
+
+GS_HIST_MODES = ['set-set', 'set-model', 'model-set', 'empty-set', 'same-shape', 'same-vectors', 'ABA']
+
+
+def gs_history_plan(i):
+    """(mode, index of surface A, index of surface B) for gamma-surface history case i.
+    B differs from A in shift class, grid, layout and presence of plane separations
+    unless the mode says otherwise."""
+    mode = GS_HIST_MODES[i % len(GS_HIST_MODES)]
+    ia = i
+    ib = 3 * i + 4 + (i // 7)
+    return mode, ia, ib
